@@ -184,12 +184,15 @@ Definition toml_read (t : list N) : option value :=
        | None => None
        end.
 
-(* TupimageConfig._parse_bool *)
+(* TupimageConfig._parse_bool: words, else int(value) in (0, 1) *)
 Definition parse_bool (s : list N) : option bool :=
   let l := lower_ascii (str_strip s) in
   if mem_str l bool_true_words then Some true
   else if mem_str l bool_false_words then Some false
-  else None.
+  else match py_int s with
+       | Some z => if (z =? 0)%Z then Some false else if (z =? 1)%Z then Some true else None
+       | None => None
+       end.
 
 (* str(int) *)
 Definition show_z (z : Z) : list N :=
@@ -358,17 +361,18 @@ Definition constraints_ok (name : list N) (v : value) : bool :=
   | _ => true
   end.
 
+Definition normalize_core (pl : platform) (name : list N) (t : ty) (v : value) : result value :=
+  match convert pl name t v with
+  | None => Err (EValue name SConv)
+  | Some v1 =>
+      if negb (verify_type t v1) then Err (EValue name SType)
+      else if constraints_ok name v1 then Ok v1
+      else Err (EValue name SRange)
+  end.
 Definition normalize (pl : platform) (name : list N) (v : value) : result value :=
   match lookup_opt name options with
   | None => Err (EKey name)
-  | Some (t, _) =>
-      match convert pl name t v with
-      | None => Err (EValue name SConv)
-      | Some v1 =>
-          if negb (verify_type t v1) then Err (EValue name SType)
-          else if constraints_ok name v1 then Ok v1
-          else Err (EValue name SRange)
-      end
+  | Some (t, _) => normalize_core pl name t v
   end.
 
 (* ------------------------------------------------------------------ configuration, layers *)
